@@ -466,6 +466,10 @@ impl TTS {
         fn compute_bookmark_element<'c, 's:'c, 'm, 'r>(value: &TTSCommandValue, tag_and_attr: &str, rules_with_context: &'r mut SpeechRulesWithContext<'c, 's, 'm>, mathml: Element<'c>) -> Result<String> {
             match value {
                 TTSCommandValue::XPath(xpath) => {
+                    if mathml.attribute("id").is_none() {
+                        // elements made from an intent value (concept names, literals) have no id -- there is nothing to mark
+                        return Ok( String::new() );
+                    }
                     let id = xpath.replace::<String>(rules_with_context, mathml)?;
                     return Ok( format!("<{}='{}'/>", tag_and_attr, id) );
                 },
